@@ -104,6 +104,8 @@ func nodeFrom(v any, expr bool) (*Node, error) {
 		n.Opts, err = optsFrom(m["opts"])
 	case "name":
 		n.Name, _ = m["n"].(string)
+	case "bad":
+		n.Name, _ = m["kind"].(string)
 	case "var":
 		if expr {
 			n.T = "varx"
